@@ -683,7 +683,7 @@ pub fn replay(j: &J) -> Option<(String, String)> {
 /// One or two plain calls of every op of a shard: the "every public function executes at least once under the
 /// machine-level monitor" pass (Miri reports uninitialised / out-of-bounds / misaligned accesses even when the
 /// result is right and nothing crashes natively). The op is announced first, so a monitor abort names it.
-pub fn run_once(seed: u64, shard: usize, of: usize, only: Option<&str>) -> Summary {
+pub fn run_once(seed: u64, shard: usize, of: usize, only: Option<&str>, calls: usize) -> Summary {
     let mut sum = Summary::default();
     sum.faults_fired.insert("HOSTILE_VALUE".into(), 0);
     sum.faults_effective.insert("HOSTILE_VALUE".into(), 0);
@@ -698,9 +698,14 @@ pub fn run_once(seed: u64, shard: usize, of: usize, only: Option<&str>) -> Summa
         if op.fname == "fmt_sink" || op.fname == "fmt_spec" {
             continue; // the spec / sink grids are covered natively; the plain `fmt` ops below run the same impls once
         }
-        crate::arena::announce(&format!("{{\"kind\":\"op\",\"fn\":{}}}", serde_json::to_string(op.name).unwrap()));
+        // hand-rolled JSON string escape: serde_json is two orders of magnitude slower under the interpreter
+        let esc: String = op.name.chars().flat_map(|c| if c == '"' || c == '\\' { vec!['\\', c] } else { vec![c] }).collect();
+        crate::arena::announce(&format!("{{\"kind\":\"op\",\"fn\":\"{esc}\"}}"));
         let nstruct = structured_total(op);
-        for k in 0..if nstruct > 0 { 4 } else { 2 } {
+        // `calls` of the four argument sets; which ones rotates with the op index so that a reduced budget still spreads
+        let all: Vec<usize> = (0..if nstruct > 0 { 4 } else { 2 }).collect();
+        let chosen: Vec<usize> = if calls >= all.len() { all } else { (0..calls).map(|j| all[(oi + seed as usize + j * 3) % all.len()]).collect() };
+        for k in chosen {
             let mut rng = Rng::new(seed, "c18p-once", (oi as u64) << 4 | k as u64);
             let args: Vec<Val> = match k {
                 0 => (0..op.args.len()).map(|i| gen_arg(op, i, &mut rng, Cls::Ordinary)).collect(),
